@@ -180,6 +180,34 @@ def c_stamp(F, fn):
     return False
 
 
+def c_matches(F, fn):
+    """the write is not on an edge where rec.status == Active holds (== / match / matches!)"""
+    for c in fn.calls():
+        if c.name == 'write_all':
+            return not lib.holds_variant_at(fn, c.bb, 'Rec', 'status', 'Status', 'Active')
+    return True
+
+
+def c_wrapper(F, fn):
+    """an Ok exit not dominated by an append, where a thin wrapper of append counts as the append"""
+    apps = lib.op_calls(F, fn, ('Store::append',))
+    return not apps or any(not (ex.get('call') in apps) and not any(lib.call_success_dominates(fn, a, ex['bb']) for a in apps) for ex in fn.ok_exits())
+
+
+def c_loop_exit(F, fn):
+    """the loop can be left other than through the exhausted arm of its iterator"""
+    loops = monotone.natural_loops(fn)
+    for nx in [c for c in fn.calls() if c.name == 'next']:
+        body = min([b for h, b in loops.items() if nx.bb in b] or [set()], key=len)
+        allowed = set()
+        for vs in lib.variant_switches(fn):
+            if vs.get('enum') == 'Option' and vs['bb'] in body and 'None' in vs['arms']:
+                allowed.add((vs['bb'], vs['arms']['None']))
+        if any(x not in body and (b, x) not in allowed and fn.blocks[x]['t']['k'] != 'unreachable' for b in body for x in fn.succs(b)):
+            return True
+    return False
+
+
 CONTROLS = [
     ('MPT  ok-exit dominance', 'Store::bad_ack', 'Store::good_ack', c_mpt),
     ('FLOW sequence-to-frame-id', 'Store::bad_flow', 'Store::good_flow', c_flow),
@@ -196,6 +224,9 @@ CONTROLS = [
     ('TYPESTATE sorted at binary search', 'Store::bad_sorted', 'Store::good_sorted', c_sorted),
     ('AGREE variant payload ignored', 'Index::bad_ids', 'Index::good_ids', c_variant),
     ('REC  unbounded recursion', 'bad_rec', 'good_rec', c_rec),
+    ('GUARD variant test via matches!', 'Store::bad_matches', 'Store::good_matches', c_matches),
+    ('WMC  thin wrapper is the operation', None, 'Store::good_wrapped_ack', c_wrapper),
+    ('LOOP exit only on exhaustion', 'bad_insert_some', 'good_insert_all', c_loop_exit),
     ('COUPLE capacity uses incoming len', 'Store::bad_capacity', 'Store::good_capacity', c_capacity),
 ]
 
